@@ -454,7 +454,8 @@ class Interp:
         if key in cc:
             return cc[key]
         v = self._const_path(fr, text)
-        if isinstance(v, (int, bool, RStr, Ref, FnItem)):
+        # (values of harness-configured model types are not constants of the program: never cached)
+        if isinstance(v, (int, bool, RStr, Ref, FnItem)) and 'Model' not in str(fr.env.key):
             cc[key] = v
         return v
 
@@ -546,9 +547,13 @@ class Interp:
         if k == 'closure':
             return Closure(r[1], [self.operand(fr, a) for a in r[2]], fr.env)
         if k == 'repeat':
-            n = int(str(r[2]).split('_')[0]) if str(r[2]).split('_')[0].isdigit() else None
+            cnt = str(r[2])
+            g = fr.env.get(cnt)             # a const generic parameter of the enclosing fn
+            if g is not None and g[0] == 'const':
+                cnt = str(g[1])
+            n = int(cnt.split('_')[0]) if cnt.split('_')[0].isdigit() else None
             if n is None:
-                raise Unsupported('repeat count ' + str(r[2]))
+                raise Unsupported('repeat count ' + str(r[2]) + ' (env %r)' % (g,))
             v = self.operand(fr, r[1])
             return VecVal([clone_val(v) for _ in range(n)])
         if k == 'len':
